@@ -121,7 +121,18 @@ def finish_params(case):
     p0 = P.TBRMMDesignParameters(**{k: v for k, v in par.items()})
     mm = MM.TBRMatchedMarkets(tbrmmdata.TBRMMData(frame_of(case), 'response', elig_of(case)), p0)
     imp = sorted(float(v) for v in mm.geo_req_impact.values if v == v)
-    if imp:
+    mode = case.get('budget_mode')
+    if imp and mode == 'lo-bites' and len(imp) >= 2:
+      # the minimum lies between the optimistic budgets of two single-geo treatment groups, the maximum is far away:
+      # some treatment groups are below the range, later ones of the same size inside it
+      j = int(u[2] * (len(imp) - 1))
+      lo = (imp[j] + imp[j + 1]) / 2 / par['iroas']
+      par['budget_range'] = (lo, lo * (20 + 200 * u[3]))
+    elif imp and mode == 'hi-bites' and len(imp) >= 2:
+      j = int(u[2] * (len(imp) - 1))
+      hi = (imp[j] + imp[j + 1]) / 2 / par['iroas'] * (1.0 + u[3])
+      par['budget_range'] = (hi * 0.01, hi)
+    elif imp:
       mid = imp[len(imp) // 2] / par['iroas']
       lo = mid * (0.05 + 0.5 * u[2])
       hi = mid * (0.3 + 2.5 * u[3])
